@@ -20,7 +20,9 @@ def cred_choices(fmt):
         return [("p256", 0, core.ES256), ("p384", 0, core.ES256), ("rsa", 2, core.RS256), ("p256lz", 1, core.ES256)]
     if fmt == "android-safetynet":
         return [("p256", 2, core.ES256), ("ed25519", 0, core.EDDSA), ("rsa", 3, core.PS256)]
-    return [(k, 0, a) for k, a in core.CRED_KINDS] + [("p256lz", 0, core.ES256), ("p521lz", 0, core.ES512)]
+    # ... and moduli beyond 4096 bits (no size is special to a relying party: what registers must authenticate)
+    return [(k, 0, a) for k, a in core.CRED_KINDS] + [("p256lz", 0, core.ES256), ("p521lz", 0, core.ES512),
+                                                      ("rsa4104", 0, core.RS256), ("rsa8192", 0, core.PS256)]
 
 
 def make_cred(choice, rng=None, cred_id=None, aaguid=None):
